@@ -4,13 +4,16 @@
 //     #[sv::msg_attr(exec,    serde(deny_unknown_fields))]     -> only ExecMsg rejects unknown keys
 //     #[sv::msg_attr(migrate, serde(deny_unknown_fields))]     -> only MigrateMsg (of the flat kinds)
 //     exec   ren(n)   with #[sv::attr(serde(rename = "zz"))]   -> that variant answers to `zz`, not `ren`
+//     exec   pre(n)   with #[sv::attr(serde(rename = "pz"))] written ABOVE #[sv::msg(exec)] -> answers to `pz`
+//     exec   bth(n)   with #[sv::attr(serde(alias = "b1"))] above and #[sv::attr(serde(alias = "b2"))] below
+//                                                               -> answers to bth, b1 and b2
 //     exec   other(n)                                           -> untouched sibling
 //     exec   args(#[serde(default)] d, #[serde(rename = "k")] r, p)
 //                                                               -> d optional, r keyed `k`
 //     query  qa(n)     sudo  sa(n)     instantiate(n)     migrate(n)        (no forwarded attribute)
 //   interface ifat
 //     #[sv::msg_attr(query, serde(deny_unknown_fields))]       -> only the interface's QueryMsg
-//     exec ie(n)       query iq(n)
+//     exec ie(n)       exec ip(n) with #[sv::attr(serde(rename = "iy"))] above sv::msg       query iq(n)
 
 pub mod ifat {
     use sylvia::ctx::{ExecCtx, QueryCtx};
@@ -24,6 +27,10 @@ pub mod ifat {
 
         #[sv::msg(exec)]
         fn ie(&self, ctx: ExecCtx, n: u64) -> Result<Response, Self::Error>;
+
+        #[sv::attr(serde(rename = "iy"))]
+        #[sv::msg(exec)]
+        fn ip(&self, ctx: ExecCtx, n: u64) -> Result<Response, Self::Error>;
 
         #[sv::msg(query)]
         fn iq(&self, ctx: QueryCtx, n: u64) -> Result<u8, Self::Error>;
@@ -59,6 +66,23 @@ pub mod at {
         #[sv::msg(exec)]
         #[sv::attr(serde(rename = "zz"))]
         pub fn ren(&self, _ctx: ExecCtx, n: u64) -> StdResult<Response> {
+            let _ = n;
+            Ok(Response::new())
+        }
+
+        // the forwarded attribute written ABOVE the sv::msg line (no order is documented)
+        #[sv::attr(serde(rename = "pz"))]
+        #[sv::msg(exec)]
+        pub fn pre(&self, _ctx: ExecCtx, n: u64) -> StdResult<Response> {
+            let _ = n;
+            Ok(Response::new())
+        }
+
+        // forwarded attributes on BOTH sides of the sv::msg line
+        #[sv::attr(serde(alias = "b1"))]
+        #[sv::msg(exec)]
+        #[sv::attr(serde(alias = "b2"))]
+        pub fn bth(&self, _ctx: ExecCtx, n: u64) -> StdResult<Response> {
             let _ = n;
             Ok(Response::new())
         }
